@@ -15,7 +15,7 @@ from harness import editw as ew
 import refconc
 
 PROPERTY = "C11"
-MODULES = ["commands"]
+MODULES = ["commands", "cli", "utils", "edit"]
 ASSUMPTIONS = [
     "A-pyben: pyben.dumps(x) yields the bytes stored in the file iff x is deep- and order-equal to the decoded info "
     "dictionary (modelled as an opaque token with exactly that equality); A-hash: injective sha1/sha256, hexdigest is a "
@@ -46,6 +46,7 @@ def jobs(tier):
         for req in reqs:
             out.append(("v%d.req%d" % (version, req), "job", dict(version=version, req=req, route="magnet")))
         out.append(("v%d.cli" % version, "job", dict(version=version, req=reqs[-1], route="cli")))
+        out.append(("v%d.cli-verbose" % version, "job", dict(version=version, req=0, route="cli-v")))
     out.append(("v1.urllist-string", "job", dict(version=1, req=0, route="magnet", ws_string=True)))
     for version in (1, 3):
         out.append(("v%d.second-call-in-process" % version, "job", dict(version=version, req=0, route="magnet", warmup=True)))
@@ -74,7 +75,7 @@ def build_meta(E, version, ws_string=False, shuffle=False):
         info = dict(reversed(list(info.items())))
     meta = {}
     trackers = None
-    t = E.choice("trackers", 4)   # 0 none, 1 announce only, 2 announce + one tier of 2, 3 two tiers (2 + 1)
+    t = E.choice("trackers", 5)   # 0 none, 1 announce only, 2 announce + one tier of 2, 3 two tiers (2 + 1), 4 = 3 with announce not first
     a0 = OStr("tr0", nonempty=True)
     if t == 1:
         meta["announce"] = a0
@@ -84,9 +85,10 @@ def build_meta(E, version, ws_string=False, shuffle=False):
         meta["announce"] = a0
         meta["announce-list"] = [[a0, a1]]
         trackers = [a0, a1]
-    elif t == 3:
+    elif t in (3, 4):
         a1, a2 = OStr("tr1", nonempty=True), OStr("tr2", nonempty=True)
-        meta["announce"] = a0
+        # (4: as other clients write it after promoting a tracker - the primary one is not the first of the list)
+        meta["announce"] = a0 if t == 3 else a2
         meta["announce-list"] = [[a0, a1], [a2]]
         trackers = [a0, a1, a2]
     else:
@@ -148,6 +150,9 @@ def job(E, version, req, route, ws_string=False, shuffle=False, warmup=False, fa
             C.magnet("/t/other.torrent")
         if route == "magnet":
             uri = C.magnet("/t/m.torrent", version=req) if req else C.magnet("/t/m.torrent")
+        elif route == "cli-v":
+            # the real command line with the global debug switch
+            uri = w.mod("cli").execute(["-v", "magnet", "/t/m.torrent"] + (["--meta-version", str(req)] if req else []))
         else:
             uri = C.get_magnet(types.SimpleNamespace(metafile="/t/m.torrent", meta_version=str(req)))
     except Unsupported:
@@ -238,8 +243,8 @@ def conc_meta(version, model, ws_string=False, shuffle=False):
         meta["announce"] = NASTY[1]
         meta["announce-list"] = [[NASTY[1], NASTY[2]]]
         trackers = [NASTY[1], NASTY[2]]
-    elif t == 3:
-        meta["announce"] = NASTY[1]
+    elif t in (3, 4):
+        meta["announce"] = NASTY[1] if t == 3 else NASTY[3]
         meta["announce-list"] = [[NASTY[1], NASTY[2]], [NASTY[3]]]
         trackers = [NASTY[1], NASTY[2], NASTY[3]]
     meta["info"] = info
@@ -318,6 +323,19 @@ def replay(params, model, notes, workdir, seed):
                 C.magnet(op)
             if params["route"] == "magnet":
                 uri = C.magnet(mpath, version=req) if req else C.magnet(mpath)
+            elif params["route"] == "cli-v":
+                import logging
+                rl = logging.getLogger()
+                lvl, hs = rl.level, list(rl.handlers)
+                try:
+                    with contextlib.redirect_stderr(io.StringIO()):
+                        uri = mods["torrentfile.cli"].execute(["-v", "magnet", mpath] + (["--meta-version", str(req)] if req else []))
+                finally:
+                    rl.setLevel(lvl)
+                    for h in list(rl.handlers):
+                        if h not in hs:
+                            rl.removeHandler(h)
+                    os.environ["TORRENTFILE_DEBUG"] = "OFF"
             else:
                 uri = C.get_magnet(types.SimpleNamespace(metafile=mpath, meta_version=str(req)))
     except Exception as ex:  # noqa: BLE001
